@@ -70,9 +70,11 @@ example : ¬ IsClient (T "Clientx") := by
 
 /-- XML reading of a written detail dict, for every nesting of dicts and lists: the ordered (key, value) pairs
     up to what XML cannot distinguish — `normKvs`: an empty string / dict / list and None are one empty
-    element; a one-item list is its item; a list of n items is n entries with the same key -/
-theorem detail_xml_roundtrip (kvs : List (Text × Detail)) : kidsToKvs (kvsToXml kvs) = normKvs kvs :=
-  kidsToKvs_kvsToXml kvs
+    element; a one-item list is its item; a list of n items is n entries with the same key; a number or boolean
+    (0, 0.0 and False included: only None is written as an empty element) is its `str()` text -/
+theorem detail_xml_roundtrip (kvs : List (Text × Detail)) : kidsToKvs (kvsToXml facts09.emptyTest kvs) = normKvs kvs := by
+  have h : facts09.emptyTest = .isNone := by decide
+  rw [h]; exact kidsToKvs_kvsToXml kvs
 
 /-- `normKvs` is a normal form: reading what was written from a reading gives the same reading -/
 theorem detail_xml_normal_form (kvs : List (Text × Detail)) : normKvs (normKvs kvs) = normKvs kvs :=
@@ -80,10 +82,14 @@ theorem detail_xml_normal_form (kvs : List (Text × Detail)) : normKvs (normKvs 
 
 /-- … and exactly equal when no list, empty string or empty dict occurs -/
 theorem detail_xml_exact (kvs : List (Text × Detail)) (h : kvsSafe kvs = true) :
-    kidsToKvs (kvsToXml kvs) = kvs := by
-  rw [kidsToKvs_kvsToXml, normKvs_of_safe kvs h]
+    kidsToKvs (kvsToXml facts09.emptyTest kvs) = kvs := by
+  rw [detail_xml_roundtrip, normKvs_of_safe kvs h]
 
-/-- dict documents carry every nested detail (dicts and lists) exactly -/
+example : normKvs [(T "zero", .scalar (T "0") true), (T "no", .scalar (T "False") true), (T "n", .null)] =
+    [(T "zero", .leaf (T "0")), (T "no", .leaf (T "False")), (T "n", .null)] := by
+  simp [normKvs, normEntry]
+
+/-- dict documents carry every nested detail (dicts, lists, numbers, booleans) exactly -/
 theorem detail_doc_roundtrip (d : Detail) : docToDetail (detailToDoc d) = d :=
   docToDetail_detailToDoc d
 
@@ -100,13 +106,13 @@ example : normKvs [(T "k", .list [.leaf (T "x"), .node [(T "a", .leaf (T "b"))]]
 theorem fault_roundtrip_xml (f : FaultV) (hm : ∀ m ∈ f.members, m.1 ≠ T "detail") :
     (encodeFault facts09 .xml f).bind (decodeFault .xml) =
       some { f with detail := normTop11 f.detail, lang := T "en", members := [] } := by
-  simp [encodeFault, decodeFault, xmlToFault11_faultToXml11 facts09 (by decide) f hm]
+  simp [encodeFault, decodeFault, xmlToFault11_faultToXml11 facts09 (by decide) (by decide) f hm]
 
 /-- SOAP 1.1: any code (the `faultcode` QName is read by its local part), any message, any detail -/
 theorem fault_roundtrip_soap11 (f : FaultV) (hm : ∀ m ∈ f.members, m.1 ≠ T "detail") :
     (encodeFault facts09 .soap11 f).bind (decodeFault .soap11) =
       some { f with detail := normTop11 f.detail, lang := T "en", members := [] } := by
-  simp [encodeFault, decodeFault, unwrapEnvelope_envelope, xmlToFault11_faultToXml11 facts09 (by decide) f hm]
+  simp [encodeFault, decodeFault, unwrapEnvelope_envelope, xmlToFault11_faultToXml11 facts09 (by decide) (by decide) f hm]
 
 /-- SOAP 1.2: first segment Client or Server, arbitrary dotted sub-codes, any message, any detail, the language -/
 theorem fault_roundtrip_soap12 (f : FaultV) (first : Text) (rest : List Text)
@@ -114,7 +120,7 @@ theorem fault_roundtrip_soap12 (f : FaultV) (first : Text) (rest : List Text)
     (hm : ∀ m ∈ f.members, m.1 ≠ tDetail12) :
     (encodeFault facts09 .soap12 f).bind (decodeFault .soap12) =
       some { f with detail := f.detail.map normKvs, members := [] } := by
-  obtain ⟨x, hx, hd⟩ := xmlToFault12_faultToXml12 facts09 (by decide) (by decide) f first rest hs hf hm
+  obtain ⟨x, hx, hd⟩ := xmlToFault12_faultToXml12 facts09 (by decide) (by decide) (by decide) f first rest hs hf hm
   simp [encodeFault, decodeFault, hx, unwrapEnvelope_envelope, hd]
 
 /-- JSON / YAML / MessagePack documents, dict and list form: everything, exactly -/
@@ -138,6 +144,20 @@ theorem fault_roundtrip_httprpc_partial (f : FaultV) (hc : '\n' ∉ f.code) :
   simp [encodeFault, decodeFault, httpText, splitBlank_httpText f.code f.str hc]
 
 example : splitOn '.' (T "Client.a.b") = T "Client" :: [T "a", T "b"] := by decide
+
+/-! ### the constructors of the built-in error classes -/
+
+/-- A generated subclass of a built-in error class that overrides CODE with a more specific sub-code is raised
+    with that code (and then delivered intact and classified by its class / prefix by the theorems above and below).
+    FULL STATEMENT (fails on the tree until `InvalidInputError.__init__` stops passing the literal
+    'Client.InvalidInput'; known finding `ctor:code-literal:InvalidInputError`): without `h1`, `h2`. -/
+theorem ctor_code_is_declared_partial (b : Builtin) (c : Text) (h1 : b ≠ .invalidInput) (h2 : b ≠ .missingField) :
+    ctorCode facts09 b (some c) = c := by
+  have h : b ∈ facts09.ctorUsesCode := by cases b <;> first | contradiction | decide
+  simp [ctorCode, h]
+
+/-- without an override every built-in class is raised with its documented code -/
+theorem ctor_code_default (b : Builtin) : ctorCode facts09 b none = b.baseCode := rfl
 
 /-! ### the funnel -/
 
@@ -344,7 +364,7 @@ theorem internal_error_decodes (p : Proto) :
 theorem client11_sees (f : FaultV) (hne : f.str ≠ []) (hm : ∀ m ∈ f.members, m.1 ≠ T "detail") :
     ∃ w cf, encodeFault facts09 .soap11 f = some w ∧ client11 w = some cf ∧
       localPart cf.code = f.code ∧ cf.str = f.str ∧ cf.detail = normTop11 f.detail := by
-  refine ⟨_, _, rfl, client11_encode facts09 f hm, ?_, ?_, rfl⟩
+  refine ⟨_, _, rfl, client11_encode facts09 (by decide) f hm, ?_, ?_, rfl⟩
   · exact localPart_prefixed _ (by decide) _
   · simp [ctorString, hne]
 
@@ -357,7 +377,7 @@ theorem client12_sees_partial (f : FaultV) (first : Text) (rest : List Text)
     (hne : f.str ≠ []) (hstr : strip f.str = f.str) (hm : ∀ m ∈ f.members, m.1 ≠ tDetail12) :
     ∃ w cf, encodeFault facts09 .soap12 f = some w ∧ client12 facts09 w = some cf ∧
       code12ToSpyne cf.code = f.code ∧ cf.str = f.str ∧ cf.detail = f.detail.map normKvs := by
-  obtain ⟨x, hx, hc⟩ := client12_encode facts09 (by decide) (by decide) f first rest hs hf hm
+  obtain ⟨x, hx, hc⟩ := client12_encode facts09 (by decide) (by decide) (by decide) f first rest hs hf hm
   refine ⟨.xml (envelope ns12 [x]), _, by simp [encodeFault, hx], hc, ?_, ?_, rfl⟩
   · exact code12ToSpyne_client _ (by decide) f.code first rest hs hf
   · simp [hstr, ctorString, hne]
